@@ -100,6 +100,8 @@ def gen_history(rng, tier, profile=None):
     if mode != "continuous" and not running:
         ops.append(["R", True])
         ops.append(["X"])
+    if rng.random() < 0.5:
+        add_sweeps(rng, {"ops": ops})
     return {
         "tick": tick,
         "p0": base * tick,
@@ -128,6 +130,12 @@ def gen_deep_cancel_history(rng, tier):
             ops.append(["L", side, lev * tick, rng.randint(1, 3), rng.choice([None, None, None, 30]), 0])
             if rng.random() < 0.5:
                 ops.append(["T"])
+        if rng.random() < 0.3:
+            # short-lived orders anywhere in the resting range, all accepted in one step: they leave the middle of the
+            # book by expiry (not by cancel) a few steps later, while further orders keep arriving
+            for _ in range(rng.randint(2, 6)):
+                lev = base + (-(rng.randint(1, width)) if side else rng.randint(1, width))
+                ops.append(["L", side, lev * tick, rng.randint(1, 2), rng.choice([1, 2, 3]), 2])
         stopped_bursts = rng.random() < 0.3
         for _ in range(rng.randint(3, 10)):
             # burst: cancels of arbitrary resting orders, then of the best, then an order from the other side
@@ -157,8 +165,20 @@ def gen_deep_cancel_history(rng, tier):
                 ops.append(["L", side, (base + (-(rng.randint(1, width)) if side else rng.randint(1, width))) * tick, 1, None, 0])
         if rng.random() < 0.5:
             ops.append(["T"])
+    add_sweeps(rng, {"ops": ops})
     return {"tick": tick, "p0": base * tick, "auto": True, "mode": "deep-cancel", "ops": ops,
             "fund_seed": rng.randrange(1 << 30), "scalars": rng.choice([None] * 10 + ["numpy", "int"])}
+
+
+def add_sweeps(rng, case):
+    """epilogue of a history: matching is switched on and each side is swept by taker orders for a random fraction of
+    its resting volume (one round each): an order left behind by such a round must not outrank a filled one."""
+    ops = case["ops"]
+    ops.append(["R", True])
+    for _ in range(rng.randint(1, 2)):
+        for side in rng.sample([True, False], 2):
+            ops.append(["SW", side, rng.choice([0.2, 0.35, 0.5, 0.7, 0.9])])
+    return case
 
 
 def gen_tie_history(rng, tier):
@@ -187,6 +207,7 @@ def gen_tie_history(rng, tier):
                 ops.append(["T"])
             if rng.random() < 0.1:
                 ops.append(["CR", side])
+    add_sweeps(rng, {"ops": ops})
     return {"tick": tick, "p0": base * tick, "auto": True, "mode": "tie-block", "ops": ops,
             "fund_seed": rng.randrange(1 << 30), "scalars": None}
 
@@ -221,6 +242,46 @@ def gen_both_sides_market_history(rng, tier):
             ops.append(["L", rng.random() < 0.5, (lo + rng.randint(-2, gap + 2)) * tick, rng.randint(1, 2), rng.choice([None, 3]), 1])
         ops.append(["T"])
     return {"tick": tick, "p0": base * tick, "auto": True, "mode": "both-sides-market", "ops": ops,
+            "fund_seed": rng.randrange(1 << 30), "scalars": None}
+
+
+def gen_expiry_history(rng, tier):
+    """books of 6-16 resting orders per side from which orders leave ONLY by expiry (from the tail, the middle or the
+    head of whatever structure holds them), followed by a few more arrivals and a sweep from the other side; no
+    cancels in between that would rebuild the structure."""
+    tick = rng.choice([1.0, 0.5, 0.1, 10.0])
+    base = rng.choice([100, 1000])
+    ops = [["R", True]]
+    for _ in range(rng.randint(2, 5)):
+        side = rng.random() < 0.5
+        width = rng.randint(4, 12)
+        n = rng.choice([6, 8, 10, 12, 14, 16]) if rng.random() < 0.7 else rng.randint(5, 15)
+        short = set(rng.sample(range(n), rng.randint(1, 3)))
+        if rng.random() < 0.7:
+            short = {n - 2} if rng.random() < 0.7 else {n - 2} | short    # among the last ones accepted
+        ttl = rng.choice([1, 2, 3])
+        far_tail = rng.random() < 0.6
+        for i in range(n):
+            lev = base + (-(rng.randint(1, width)) if side else rng.randint(1, width))
+            if far_tail and i == n - 2 and i in short:
+                # the short-lived order is the least attractive one: wherever the book keeps its orders, it sits at
+                # the very end next to the last arrival
+                lev = base + (-(width + 2) if side else (width + 2))
+            ops.append(["L", side, lev * tick, rng.randint(1, 2), ttl if i in short else None, 0])
+        for _ in range(ttl + 1):
+            ops.append(["T"])
+        for _ in range(rng.choice([0, 2, 2, 3, 4])):
+            lev = base + (-(rng.randint(1, width + 3)) if side else rng.randint(1, width + 3))
+            ops.append(["L", side, lev * tick, 1, None, 1])
+        if rng.random() < 0.5:
+            ops.append(["M", not side, rng.randint(2, 6), None, 2])
+        else:
+            ops.append(["SW", not side, rng.choice([0.2, 0.35, 0.5, 0.7])])
+        if rng.random() < 0.5:
+            ops.append(["M", not side, rng.randint(1, 4), None, 2])
+        ops.append(["T"])
+    add_sweeps(rng, {"ops": ops})
+    return {"tick": tick, "p0": base * tick, "auto": True, "mode": "expiry-only", "ops": ops,
             "fund_seed": rng.randrange(1 << 30), "scalars": None}
 
 
@@ -266,7 +327,7 @@ def gen_churn_history(rng, tier):
 
 
 RF_FORMS = ["order_for_another_market", "resubmission", "cancel_of_another_markets_order", "cancel_of_unsubmitted_order",
-            "resting_order_offered_to_another_market"]
+            "resting_order_offered_to_another_market", "premature_cancel_then_submission"]
 
 
 class DirectRun:
@@ -363,6 +424,18 @@ class DirectRun:
         elif k == "X":
             if m.is_running:
                 m._execution()
+        elif k == "SW":
+            # one taker order that eats a given fraction of everything resting on the other side in ONE round
+            depth = m.get_sell_order_book() if op[1] else m.get_buy_order_book()
+            total = sum(depth.values())
+            if total <= 0 or not m.is_running:
+                return
+            vol = max(1, min(total, int(total * op[2]) or 1))
+            o = Order(agent_id=7, market_id=0, is_buy=op[1], kind=MARKET_ORDER, volume=vol, ttl=None)
+            self.submitted.append(o)
+            m._add_order(o)
+            m._execution()
+            taps.hits["sweep_of_a_fraction_of_one_side_in_one_round"] += 1
         elif k == "RF":
             form = op[1]
             old = self.submitted[op[2] % len(self.submitted)] if self.submitted else None
@@ -393,6 +466,25 @@ class DirectRun:
                     if not live:
                         return
                     self.coarse._add_order(live[op[2] % len(live)])
+                elif form == "premature_cancel_then_submission":
+                    # a kill switch fired before its order went out: the cancel is refused, the order is then
+                    # submitted normally and can be cancelled (for real) later by the ordinary cancel operations
+                    is_buy = bool(op[2] % 2)
+                    o = Order(agent_id=op[2] % 3, market_id=m.market_id, is_buy=is_buy, kind=LIMIT_ORDER,
+                              volume=1 + op[2] % 4, ttl=(None, 6, 25)[op[2] % 3],
+                              price=max(m.tick_size, m.get_market_price() + (-1 if is_buy else 1) * (op[2] % 5) * m.tick_size))
+                    try:
+                        m._cancel_order(Cancel(order=o))
+                    except (ValueError, AssertionError):
+                        taps.hits["refused_request:" + form] += 1
+                    else:
+                        taps.hits["REFUSAL-EXPECTED-BUT-ACCEPTED:" + form] += 1
+                    taps.emit("refused_ret", mkt=m, running=m.is_running, form=form)
+                    self.submitted.append(o)
+                    m._add_order(o)
+                    if self.case["auto"] and m.is_running:
+                        m._execution()
+                    return
                 elif form == "cancel_of_another_markets_order":
                     if getattr(self, "other", None) is None:
                         from pams.market import Market
